@@ -125,6 +125,9 @@ type E2ECase struct {
 	UDP     bool   `json:"udp,omitempty"` // UDP ASSOCIATE + relayed datagram instead of CONNECT
 	User    string `json:"user"`
 	AssocDS bool   `json:"assocDst,omitempty"` // UDP: the ASSOCIATE request itself names the destination (else 0.0.0.0:0)
+	Dgram   bool   `json:"dgram,omitempty"`    // UDP: the server relays in RFC 1928 datagram mode instead of packet-over-stream
+	Knock   bool   `json:"knock,omitempty"`    // UDP: the destination speaks first (sends a datagram to the relay port) before the client names it
+	Again   int    `json:"again,omitempty"`    // UDP: the client's datagram is sent 1+Again times
 }
 
 func genE2E(t *rapid.T) E2ECase {
@@ -135,6 +138,9 @@ func genE2E(t *rapid.T) E2ECase {
 		UDP:     rapid.Bool().Draw(t, "udp"),
 		User:    rapid.SampledFrom([]string{"", "ghost", "plain", "plain", "loop", "priv", "both"}).Draw(t, "user"),
 		AssocDS: rapid.Bool().Draw(t, "assocDst"),
+		Dgram:   rapid.Bool().Draw(t, "dgram"),
+		Knock:   rapid.Bool().Draw(t, "knock"),
+		Again:   rapid.IntRange(0, 2).Draw(t, "again"),
 	}
 }
 
@@ -182,8 +188,16 @@ func propE2E(c E2ECase) (o pbt.Outcome) {
 	o.Label("mayReach=%v", mayReach)
 	o.NonTrivial = form != 0 || class == classPrivate
 
+	mode := socks5.UDPAssociateModePacketOverStream
+	if c.UDP && c.Dgram {
+		mode = socks5.UDPAssociateModeDatagram
+	}
+	if c.UDP {
+		o.Label("dgram=%v", c.Dgram)
+		o.Label("knock=%v", c.Knock)
+	}
 	srv, err := socks5.New(&socks5.Config{Users: users, HandshakeTimeout: 2 * time.Second, AuthOpts: socks5.Auth{ClientSideAuthentication: true},
-		Resolver: localResolver{}})
+		Resolver: localResolver{}, UDPAssociateMode: mode})
 	if err != nil {
 		o.Failf("harness", "socks5.New: %v", err)
 		return
@@ -276,8 +290,49 @@ func propE2E(c E2ECase) (o pbt.Outcome) {
 		}
 		return
 	}
-	frame := refproto.FrameUDPAssociate(append(append([]byte{0, 0, 0}, d.raw()...), []byte("probe")...))
-	conn.Write(frame)
+	relayPort := int(rep[len(rep)-2])<<8 | int(rep[len(rep)-1])
+	relayAddr := &net.UDPAddr{IP: s.ip, Port: relayPort}
+	if c.Knock && s.udp != nil {
+		// the destination speaks first: the relay learns its address from an
+		// inbound datagram before the client ever names it
+		s.udp.WriteToUDP([]byte("knock"), relayAddr)
+		if !c.Dgram {
+			// packet-over-stream: the knock is forwarded to the client; wait for it
+			conn.SetReadDeadline(time.Now().Add(500 * time.Millisecond))
+			hdr := make([]byte, 3)
+			if _, err := io.ReadFull(conn, hdr); err == nil {
+				io.ReadFull(conn, make([]byte, (int(hdr[1])<<8|int(hdr[2]))+1))
+			}
+			conn.SetReadDeadline(time.Time{})
+		} else {
+			time.Sleep(20 * time.Millisecond)
+		}
+	}
+	dg := append(append([]byte{0, 0, 0}, d.raw()...), []byte("probe")...)
+	var cliUDP *net.UDPConn
+	if c.Dgram {
+		// RFC 1928 mode: the client sends the datagram to the relay port itself
+		lip := net.IPv4(127, 0, 0, 1)
+		netw := "udp4"
+		to := &net.UDPAddr{IP: lip, Port: relayPort}
+		if !v4 {
+			lip, netw = net.ParseIP("::1"), "udp6"
+			to = &net.UDPAddr{IP: lip, Port: relayPort}
+		}
+		cliUDP, err = net.ListenUDP(netw, &net.UDPAddr{IP: lip})
+		if err != nil {
+			o.Inconclusive = "no client UDP socket: " + err.Error()
+			return
+		}
+		defer cliUDP.Close()
+		for i := 0; i <= c.Again; i++ {
+			cliUDP.WriteToUDP(dg, to)
+		}
+	} else {
+		for i := 0; i <= c.Again; i++ {
+			conn.Write(refproto.FrameUDPAssociate(dg))
+		}
+	}
 	time.Sleep(40 * time.Millisecond)
 	if mayReach {
 		for end := time.Now().Add(time.Second); s.dgs.Load() == dgs0 && time.Now().Before(end); {
